@@ -30,8 +30,10 @@ void *__real_memmove(void *, const void *, size_t);
 void *__real_memset(void *, int, size_t);
 }
 
-#ifdef REENT_VARIANT_GCC
+#if defined(REENT_VARIANT_GCC)
 #define REENT_ENGINE_NAME "reentg"
+#elif defined(REENT_VARIANT_O2)
+#define REENT_ENGINE_NAME "reento"
 #else
 #define REENT_ENGINE_NAME "reent"
 #endif
@@ -1181,6 +1183,15 @@ int main(int argc, char **argv) {
     e.real_components = {"libopen1722 + libopen1722custom built from /repo/src by gcc -O2 with -fsanitize-coverage=trace-pc",
                          "call bindings generated from /repo/include and compiled by gcc -O2; hand-written drivers for builders/VSS codec"};
     e.probes = {"probe.preempted_inside_library_call", "probe.preempted_inside_call_on_shared_pdu", "probe.calls_with_invalid_arguments"};
+    e.quick_runs = 4600;
+    e.thorough_runs = 230000;
+    e.quick_wall_cap = 60;
+    e.thorough_wall_cap = 500;
+#endif
+#ifdef REENT_VARIANT_O2
+    // third build: the access-instrumented build again, optimised (clang -O2 -DNDEBUG): code that only exists under __OPTIMIZE__ / NDEBUG
+    e.real_components = {"libopen1722 + libopen1722custom built from /repo/src by clang -O2 -DNDEBUG with sanitizer-coverage trace-pc-guard,trace-loads,trace-stores",
+                         "call bindings generated from /repo/include; hand-written drivers for builders/VSS codec"};
     e.quick_runs = 4600;
     e.thorough_runs = 230000;
     e.quick_wall_cap = 60;
